@@ -14,6 +14,10 @@ CLAIMS = {
    text="Invariant proof (Lean 4) over the oracle transition system for every GC interval and every sequence of commits and failed commits: an accepted conflict check never overlooks a live batch stamped after the checker began (C04_check_sound), two live batches sharing a key never overlap in time (C04_first_committer_wins), rollback of a failed batch preserves this (C04_rollback_preserves), GC never prunes the window of a registered transaction (C04_gc_safe). No-false-abort is proved for traces without failed commits (_partial); the remaining false-abort after two failed in-flight commits on one key is a recorded known finding with a kernel-checked witness. The model is run against the real CommitOracle on thousands of pipeline-shaped op strings incl. GC bursts.",
    note="Trusted: Lean kernel + standard axioms; transcription of src/oracle.rs; atomicity of check+allocate+publish under write_mutex is an assumption of the oracle model (the pipeline's schedule-level behaviour belongs to C05); fingerprint collisions only add conflicts.",
    technique="Lean 4 invariant proof over a transition system + differential correspondence with the real CommitOracle", ref="DESIGN.md §6 C04"),
+ "C05": dict(
+   text="Invariant proof (Lean 4) over the commit-pipeline transition system whose steps are the code's statements between yield points, for every number of threads, batch sizes and every interleaving: the horizon is monotone (C05_visible_mono), publication is FIFO and only of applied batches (C05_publish_fifo), the horizon is never strictly inside a batch (C05_horizon_on_batch_boundary), queued batches are invisible (C05_queued_invisible), every non-failed batch at or below the horizon is completely applied (C05_atomic_partial), a commit reports ok only once the horizon covers it (C05_ok_implies_visible). Failed batches are the excluded family: their applied prefix becomes visible (kernel-checked witness, known finding shared with C15). The model is replayed against the real CommitPipeline under controlled schedules at the verif_yield! points.",
+   note="Trusted: Lean kernel + standard axioms; transcription of src/commit.rs; atomicity of one step between yield points; tokio primitives by documented semantics; the schedule controller. Partial: real-thread races finer than the yield granularity are not exhibited.",
+   technique="Lean 4 invariant proof over an interleaving transition system + schedule-controlled differential correspondence", ref="DESIGN.md §6 C05"),
 }
 props = [json.loads(l) for l in open('/verif/properties.jsonl')]
 hooks = subprocess.run(["git", "-C", "/repo", "log", "--format=%h %s"], capture_output=True, text=True).stdout.splitlines()
